@@ -272,6 +272,7 @@ def run(repo, rep, tier):
             rep.violation("R-E4-ID", site, "affine", "moment-level affine invariance of the correlation coefficient fails", obligation=True)
     general(repo, rep, alg, table, quad)
     input_forms(repo, rep)
+    freshcopy_local(repo, rep)
     fam = [(MOD, "CurveFitting." + x) for x in ("set", "_compute_parameters", "correlation_coeff", "linear_fitting", "quadratic_fitting", "general_fitting")]
     effects.check_functions(repo, rep, fam)
     guards.check_functions(repo, rep, fam)
@@ -328,13 +329,23 @@ def input_forms(repo, rep):
         if list(gx[1:]) != wx or list(gy[1:]) != wy:
             bad.append((name, "x = %s, y = %s; expected the %d point(s) x = %s, y = %s" % (T.show(gx)[:70], T.show(gy)[:70], len(wx), T.show(("list",) + tuple(wx))[:60],
                                                                                         T.show(("list",) + tuple(wy))[:60])))
-    rep.floor("input forms of CurveFitting.set executed", n_ok, 8)
+    if not unknown:
+        rep.floor("input forms of CurveFitting.set executed", n_ok, 8)      # (when forms could not be read the rule says so below instead)
     for name, msg in bad[:3]:
         rep.violation("R-FORMS", site, "form:" + name, "with %s set() leaves %s - the sums over these tables no longer describe the same points" % (name, msg), obligation=True)
     for u in unknown[:2]:
         rep.inconcl("R-FORMS", site, u)
     if not bad and not unknown:
         rep.ok("R-FORMS", site, "%d input forms leave paired tables of equal length" % n_ok, obligation=True)
+
+
+def freshcopy_local(repo, rep):
+    """the copy form of CurveFitting.set stores the source's tables by reference: no in-place mutation of them may follow (rule of C20, findings of
+    this class only) - otherwise a fit of the copy reads tables that belong to another data set than its accumulated sums"""
+    from .c20 import r_freshcopy
+    before = len(rep.findings)
+    r_freshcopy(repo, rep)
+    rep.findings = rep.findings[:before] + [f for f in rep.findings[before:] if f.site.startswith("CurveFitting.")]
 
 
 def general_sums(outs):
